@@ -95,17 +95,22 @@ Definition check_obs (c : cfg) (g : raw) (t : tree) (o : tobs) : bool :=
   is_traversal n root (t_seen t) (o_parent o) (o_bfs o) &&
   is_traversal n root (t_seen t) (o_parent o) (o_dfs o).
 
-Record tcase := mkTC { tc_cfg : cfg; tc_raw : raw; tc_root : nat; tc_err : bool; tc_obs : tobs }.
+(* the admissible adjacency the implementation sees is symmetric (hypothesis of the forest theorem) *)
+Definition symb (n : nat) (nb : nat -> list nat) : bool :=
+  forallb (fun u => forallb (fun v => Nat.ltb v n && memn u (nb v)) (nb u)) (seq 0 n).
+
+(* tc_root: the Python integer given as starting element; tc_calls: how many times compute() was called *)
+Record tcase := mkTC { tc_cfg : cfg; tc_raw : raw; tc_root : Z; tc_calls : nat; tc_err : bool; tc_obs : tobs }.
 
 Definition check_tree (k : tcase) : bool :=
-  match bfs (tc_cfg k) (tc_raw k) (tc_root k) with
+  match bfs_calls (tc_cfg k) (tc_raw k) (tc_root k) (tc_calls k) with
   | None => tc_err k
   | Some t => negb (tc_err k) && check_obs (tc_cfg k) (tc_raw k) t (tc_obs k)
   end.
 
 (* ---------------------------------------------------------------- forests *)
 Record fcase := mkFC {
-  fc_kind : kind; fc_polyline : bool; fc_raw : raw;
+  fc_kind : kind; fc_polyline : bool; fc_raw : raw; fc_calls : nat;
   fc_roots : list nat;
   fc_trees : list tobs;
   fc_edges : list (nat * nat);
@@ -126,7 +131,8 @@ Definition count_in (v : nat) (ts : list tobs) : nat :=
 Definition check_forest (k : fcase) : bool :=
   let g := forest_graph (fc_kind k) (fc_raw k) in
   let c := forest_cfg (fc_kind k) (fc_polyline k) in
-  let f := forest (fc_kind k) (fc_polyline k) (fc_raw k) in
+  let f := forest_calls (fc_kind k) (fc_polyline k) (fc_raw k) (fc_calls k) in
+  symb (length g) (adm_nbrs c g) &&
   leqb Nat.eqb (forest_roots f) (fc_roots k) &&
   check_trees c g f (fc_trees k) &&
   leqb paireqb (flat_map o_edges (fc_trees k)) (fc_edges k) &&
@@ -180,14 +186,16 @@ Definition nb_of (n : nat) (l : list (nat * nat)) : list (list nat) :=
   fold_left (fun nb e => add_nb (add_nb nb (fst e) (snd e)) (snd e) (fst e)) l (repeat [] n).
 
 Definition same_set (a b : list nat) : bool :=
-  Nat.eqb (length a) (length b) && nodupb a && forallb (fun x => memn x b) a.
+  Nat.eqb (length a) (length b) && nodupb a && nodupb b && forallb (fun x => memn x b) a.
 
-Record kcase := mkKC { kc_in : kinput; kc_err : bool; kc_obs : tobs }.
+(* kc_root: the Python integer given as starting vertex (ki_root of kc_in is ignored); kc_calls: calls of compute() *)
+Record kcase := mkKC { kc_in : kinput; kc_root : Z; kc_calls : nat; kc_err : bool; kc_obs : tobs }.
 
 Definition check_kruskal (k : kcase) : bool :=
   let i := kc_in k in
   let o := kc_obs k in
-  match kruskal i with
+  let root := Z.to_nat (kc_root k) in
+  match kruskal_calls i (kc_root k) (kc_calls k) with
   | None => kc_err k
   | Some t =>
       negb (kc_err k) && kt_done t &&
@@ -200,9 +208,9 @@ Definition check_kruskal (k : kcase) : bool :=
       | None => false
       end &&
       (* orientation: determined by the edge list (children lists up to order) *)
-      (let '(par, ch, fin) := orient n (nb_of n (o_edges o)) (ki_root i) in
+      (let '(par, ch, fin) := orient n (nb_of n (o_edges o)) root in
        fin && leqb oeqb par (o_parent o) && Nat.eqb (length ch) (length (o_children o)) &&
        forallb (fun v => same_set (getl ch v) (getl (o_children o) v)) (seq 0 n)) &&
-      (let '(out, fin) := traverse true (ki_root i) (o_children o) in fin && leqb entry_eqb out (o_bfs o)) &&
-      (let '(out, fin) := traverse false (ki_root i) (o_children o) in fin && leqb entry_eqb out (o_dfs o))
+      (let '(out, fin) := traverse true root (o_children o) in fin && leqb entry_eqb out (o_bfs o)) &&
+      (let '(out, fin) := traverse false root (o_children o) in fin && leqb entry_eqb out (o_dfs o))
   end.
